@@ -37,19 +37,19 @@ use lightmotif::num::StrictlyPositive;
 use lightmotif::num::Unsigned;
 use lightmotif::num::{U16, U32};
 use lightmotif::pli::verif;
+use lightmotif::pli::Accumulate;
 use lightmotif::pli::Pipeline;
 use lightmotif::pli::Score;
 use lightmotif::pli::Stripe;
 use lightmotif::pwm::ScoringMatrix;
 use lightmotif::scores::StripedScores;
 use lightmotif::seq::StripedSequence;
-use std::ops::AddAssign;
 
-pub trait Elem: MatrixElement + AddAssign + Copy + PartialEq + std::fmt::Debug + 'static {
+pub trait Elem: MatrixElement + Accumulate + Copy + PartialEq + std::fmt::Debug + 'static {
     fn parse(tok: &str) -> Self;
     fn bits(self) -> usize;
-    /// the defined score of one window, in scalar order; `None` when the property does not fix it
-    /// (u8 sums above 255: saturating vs wrapping is C08's matter and never generated here)
+    /// the defined score of one window, in scalar order (f32: left-to-right IEEE sum; u8: the sum,
+    /// saturating at 255 like every backend's accumulation)
     fn window(terms: &[Self]) -> Option<Self>;
     /// `Err` when `got` is not an acceptable value for the exact sum of `terms`
     fn exact_ok(terms: &[Self], got: Self) -> Result<(), String>;
@@ -97,15 +97,11 @@ impl Elem for u8 {
     }
     fn window(terms: &[u8]) -> Option<u8> {
         let s: u32 = terms.iter().map(|&t| t as u32).sum();
-        if s <= 255 {
-            Some(s as u8)
-        } else {
-            None
-        }
+        Some(s.min(255) as u8)
     }
     fn exact_ok(terms: &[u8], got: u8) -> Result<(), String> {
         let s: u32 = terms.iter().map(|&t| t as u32).sum();
-        if s > 255 || s == got as u32 {
+        if s.min(255) == got as u32 {
             Ok(())
         } else {
             Err(format!("score {} is not the sum {}", got, s))
@@ -716,8 +712,14 @@ fn matrix_f32(rng: &mut Rng, k: usize, m: usize) -> String {
     join(v.iter())
 }
 
-/// a u8 matrix whose window sums never exceed 255 (row maxima sum to at most 255)
+/// a u8 matrix; two times out of three the window sums stay below 256 (row maxima sum to at most
+/// 255), otherwise they may exceed it and every backend must saturate at 255
 fn matrix_u8(rng: &mut Rng, k: usize, m: usize) -> String {
+    if rng.chance(1, 3) {
+        let hi = *rng.pick(&[255usize, 255, 128, 64, 300 / m.max(1) + 1]);
+        let v: Vec<usize> = (0..m * k).map(|_| if rng.chance(1, 4) { hi.min(255) } else { rng.range(0, hi.min(255)) }).collect();
+        return join(v.iter());
+    }
     let mut budget = 255usize;
     let mut caps = vec![0usize; m];
     for j in 0..m {
@@ -824,7 +826,7 @@ fn case_line(rng: &mut Rng, alpha: &str, k: usize, ty: &str, m: usize, l: usize,
 }
 
 /// calls outside the contract, where panic / no panic is what is compared: too few wrap rows, empty
-/// motif, ranges past the sequence rows (generic pipelines only: the SIMD kernels read raw memory)
+/// motif, ranges past the sequence rows
 fn edge_line(rng: &mut Rng, alpha: &str, k: usize, ty: &str) -> String {
     let m = rng.range(0, 6);
     let l = rng.range(0, 140);
@@ -839,15 +841,13 @@ fn edge_line(rng: &mut Rng, alpha: &str, k: usize, ty: &str) -> String {
         let r = (l + c - 1) / c;
         let simd = !(p.starts_with("gen") || p == "disp-generic" || (ty == "u8" && p == "disp-sse2"));
         let enough = m >= 1 && w >= m - 1;
-        if simd && enough {
-            // in contract for the kernel: stay inside the sequence rows
+        let _ = (simd, enough);
+        // any range, also past the sequence rows and past the matrix: the generic code panics on its
+        // row index, the SIMD wrappers on their explicit row-range check
+        if rng.chance(1, 3) {
             let (a, b) = sub_range(rng, r);
             line.push_str(&format!(" R {} {} {}", p, a, b));
-        } else if simd {
-            // the wrapper panics before touching anything
-            line.push_str(&format!(" R {} {} {}", p, rng.range(0, r), rng.range(0, r + 1)));
         } else {
-            // bounds-checked code: any range
             line.push_str(&format!(" R {} {} {}", p, rng.range(0, r + 2), rng.range(0, r + w + 3)));
         }
         if rng.chance(1, 3) {
